@@ -41,15 +41,100 @@ def ctIsJson (h : Hdr) : Bool :=
   | some v => v == "application/json" || v.startsWith "application/json;"
   | none => false
 
-def respOKOf (entries : List (String × String)) (includeStatus : Bool) (st : Nat) (h : Hdr) (b : Bytes) : Bool :=
-  if st == 304 || st == 308 || st == 307 || st == 301 then true else
-  if entries.isEmpty then true else
-  let e := match entries.find? (fun p => p.1 == toString st) with
+/-- required response header X-A with schema {type: integer}; the harness sets X-A to "1", "2" or "z" -/
+def hdrXAok (h : Hdr) : Bool :=
+  match hget h "X-A" with
+  | some v => validInt v.toList
+  | none => false
+
+/-- Responses.Status: exact code, then the "NXX" range key for 100..599; then `default` -/
+def lookupEntry (entries : List (String × String)) (st : Nat) : Option (String × String) :=
+  match entries.find? (fun p => p.1 == toString st) with
+  | some p => some p
+  | none =>
+    let range := if 99 < st && st < 600 then entries.find? (fun p => p.1 == toString (st / 100) ++ "XX") else none
+    match range with
     | some p => some p
     | none => entries.find? (fun p => p.1 == "default")
-  match e with
+
+def respOKOf (entries : List (String × String)) (includeStatus excludeBody : Bool) (st : Nat) (h : Hdr) (b : Bytes) : Bool :=
+  if st == 304 || st == 308 || st == 307 || st == 301 then true else
+  if entries.isEmpty then true else
+  match lookupEntry entries st with
   | none => !includeStatus
-  | some (_, kind) => if kind == "json" then ctIsJson h && validInt b else true
+  | some (_, kind) =>
+    let needHdr := kind == "hdr" || kind == "hdrjson"
+    let needJson := kind == "json" || kind == "hdrjson"
+    (!needHdr || hdrXAok h) && (excludeBody || !needJson || (ctIsJson h && validInt b))
+
+/-! request side: the case describes the matched operation as in C07 ("rq": opParams/pathParams with a
+controlled verdict each, opSecurity/docSecurity/declared/accepted, hasBody/bodyFail, option flags); the
+always-present required query parameter `q` of the older cases is one more operation-level parameter. -/
+open KinModel.Request in
+def parseIn (s : String) : In :=
+  match s with | "path" => .path | "query" => .query | "header" => .header | _ => .cookie
+def inStr : KinModel.Request.In → String
+  | .path => "path" | .query => "query" | .header => "header" | .cookie => "cookie"
+def parseParam (j : Json) : KinModel.Request.Param := ⟨getStr j "name", parseIn (getStr j "in"), getBool j "ok"⟩
+def parseReqs (js : List Json) : List KinModel.Request.Requirement := js.map (fun r => strs (asArr r))
+
+structure Rq where
+  o : KinModel.Request.Opts
+  op : KinModel.Request.Op
+  declared : List String
+  accepted : List String
+
+def parseRq (j : Json) (useOpts : Bool) : Rq :=
+  let rq := getD j "rq" Json.null
+  let qs : List KinModel.Request.Param :=
+    if getBool j "noq" then [] else [⟨"q", .query, getStr j "req" == "ok"⟩]
+  { o := if useOpts then { excludeBody := getBool rq "excludeBody", excludeQuery := getBool rq "excludeQuery",
+                           multiError := getBool rq "multi" } else {},
+    op := { opParams := qs ++ (getArr rq "opParams").map parseParam,
+            pathParams := (getArr rq "pathParams").map parseParam,
+            opSecurity := if isNull rq "opSecurity" then none else some (parseReqs (getArr rq "opSecurity")),
+            docSecurity := parseReqs (getArr rq "docSecurity"),
+            hasBody := getBool rq "hasBody", bodyOK := getStr rq "bodyFail" == "" },
+    declared := strs (getArr rq "declared"), accepted := strs (getArr rq "accepted") }
+
+def Rq.verdict (r : Rq) : KinModel.Request.Res :=
+  KinModel.Request.validateRequest r.o r.op (fun s => r.declared.contains s) (fun s => r.accepted.contains s)
+
+def partBranch (r : Rq) : KinModel.Request.Part → String
+  | .security => if r.op.opSecurity.isSome then "rq.fail.security.op" else "rq.fail.security.doc"
+  | .body => "rq.fail.body"
+  | .param p => (if r.op.opParams.contains p then "rq.fail.param.op." else "rq.fail.param.path.") ++ inStr p.loc
+
+def rqBranches (j : Json) (r : Rq) : List String :=
+  let d := fun s => r.declared.contains s
+  let a := fun s => r.accepted.contains s
+  let fails := KinModel.Request.failing r.o r.op d a
+  let hasSecOp := r.op.opSecurity.isSome
+  let hasSecDoc := !r.op.docSecurity.isEmpty
+  let nOp := r.op.opParams.length
+  let nPath := r.op.pathParams.length
+  -- what the operation declares at all (the sole-constraint cells)
+  let sole :=
+    if isNull j "rq" then []   -- the older family (one required query parameter `q`) is the default shape
+    else if hasSecDoc && !hasSecOp && nOp == 0 && nPath == 0 && !r.op.hasBody then ["rq.sole.security.doc"]
+    else if hasSecOp && !hasSecDoc && nOp == 0 && nPath == 0 && !r.op.hasBody then ["rq.sole.security.op"]
+    else if !hasSecOp && !hasSecDoc && nOp == 1 && nPath == 0 && !r.op.hasBody then
+      ["rq.sole.param.op." ++ String.join (r.op.opParams.take 1 |>.map (fun p => inStr p.loc))]
+    else if !hasSecOp && !hasSecDoc && nOp == 0 && nPath == 1 && !r.op.hasBody then
+      ["rq.sole.param.path." ++ String.join (r.op.pathParams.take 1 |>.map (fun p => inStr p.loc))]
+    else if !hasSecOp && !hasSecDoc && nOp == 0 && nPath == 0 && r.op.hasBody then ["rq.sole.body"]
+    else if !hasSecOp && !hasSecDoc && nOp == 0 && nPath == 0 && !r.op.hasBody then ["rq.unconstrained"]
+    else []
+  (fails.map (partBranch r)).eraseDups ++ sole ++
+  (if fails.length > 1 then ["rq.fail.many"] else []) ++
+  (if !fails.isEmpty && getStr (getD j "rq" Json.null) "bodyFail" != "" && fails.contains .body then
+     ["rq.body." ++ getStr (getD j "rq" Json.null) "bodyFail"] else []) ++
+  (if hasSecOp && hasSecDoc then ["rq.sec.op_overrides_doc"] else []) ++
+  (if r.op.pathParams.any (KinModel.Request.overridden r.op.opParams) then ["rq.param.override"] else []) ++
+  (if r.o.excludeBody && r.op.hasBody then ["rq.opt.exb"] else []) ++
+  (if r.o.excludeQuery && (r.op.pathParams ++ r.op.opParams).any (fun p => p.loc == .query) then ["rq.opt.exq"] else []) ++
+  (if r.o.multiError then ["rq.opt.multi"] else []) ++
+  (if getBool j "decoy" then ["doc.decoy"] else [])
 
 def insertKV (p : String × String) : List (String × String) → List (String × String)
   | [] => [p]
@@ -67,7 +152,9 @@ def jclient (c : Client) : List (String × Json) :=
 
 def errStr (e : ErrCode) : String := s!"{e.httpStatus}:{e.num}"
 def logStr : LogKind → String | .route => "route" | .request => "request" | .response => "response"
-def failStr : ReqFail → String | .none => "none" | .noPath => "nopath" | .noMethod => "nomethod" | .invalid => "invalid"
+def failStr : ReqFail → String
+  | .none => "none" | .noPath => "nopath" | .noMethod => "nomethod" | .invalid => "param"
+  | .security => "security" | .bodySchema => "body" | .bodyMissing => "body" | .bodyType => "body"
 
 def opBranches (ops : List Op) (strict : Bool) : List String :=
   let firstIdx := ops.findIdx (fun o => match o with | .writeHeader _ => true | .write _ => true | _ => false)
@@ -91,13 +178,23 @@ def handleMw (j : Json) : Json :=
   let cfg : Cfg := { strict := strict, errOps := errOpsOf errfn (parseOps (getArr j "errops")) }
   let doc := getD j "doc" Json.null
   let entries := (getArr doc "responses").map (fun e => (getStr e "key", getStr e "kind"))
-  let env : Env := { routeFound := getStr j "route" == "ok", reqOK := getStr j "req" == "ok",
-                     respOK := respOKOf entries (getBool doc "includeStatus") }
+  let rq := parseRq j true
+  let env : Env := envOf (getStr j "route" == "ok") rq.o rq.op (fun s => rq.declared.contains s)
+                     (fun s => rq.accepted.contains s)
+                     (respOKOf entries (getBool doc "includeStatus") (getBool doc "excludeRespBody"))
   let o := middleware cfg env ops
   let s := spec cfg env ops
   let applicable := validCodesB ops
   let excl : List String := []
   let branches :=
+    (if env.routeFound then rqBranches j rq else []) ++
+    (if env.routeFound && env.reqOK then
+       (match lookupEntry entries (validatedStatus (if strict then (Strict.run {} ops).status else (Warn.run {} ops).status)) with
+        | some (k, kind) => ["resp.kind." ++ kind] ++ (if k.endsWith "XX" then ["resp.range_key"] else []) ++
+                            (if k == "default" then ["resp.default_key"] else [])
+        | none => ["resp.undocumented"]) ++
+       (if getBool doc "excludeRespBody" then ["resp.opt.exb"] else [])
+     else []) ++
     (if !env.routeFound then ["mw.noroute"] else if !env.reqOK then ["mw.badreq"] else
       opBranches ops strict ++
       (if o.logs == [.response] then (if strict then ["mw.strict_replaced"] else ["mw.warn_logged"]) else
@@ -123,16 +220,24 @@ def handleVh (j : Json) : Json :=
   let ops := parseOps (getArr j "ops")
   let enc := getStr j "enc"
   let encOps := encOpsOf enc (parseOps (getArr j "errops"))
+  let rq := parseRq j false
   let fail : ReqFail :=
     match getStr j "route" with
     | "nopath" => .noPath
     | "nomethod" => .noMethod
-    | _ => if getStr j "req" == "ok" then .none else .invalid
+    | _ => match rq.verdict with
+           | .ok => .none
+           | .err (.security :: _) => .security
+           | .err (.body :: _) =>
+             (match getStr (getD j "rq" Json.null) "bodyFail" with
+              | "empty" => .bodyMissing | "ctype" => .bodyType | _ => .bodySchema)
+           | .err _ => .invalid
   let o := vhandler encOps fail ops
   let s := vspec encOps fail ops
   let branches :=
     ["vh." ++ failStr fail, "vh.enc." ++ enc, "vh.entry." ++ getStr j "entry"] ++
     (if fail == .none then opBranches ops false else []) ++
+    (if fail != .noPath && fail != .noMethod then rqBranches j rq else []) ++
     (if getStr j "transport" == "server" then ["tr.server"] else [])
   let out (v : VOutcome) := jobj ([("ran", Json.bool v.handlerRan), ("err", jstrs (v.encCalls.map failStr)),
                                    ("logs", jstrs [])] ++ jclient v.client)
